@@ -2,6 +2,7 @@ SPECIFICATION Spec
 CONSTANTS
   N = 3
   Rich = TRUE
+  Family = "all"
   Deviations = {}
-INVARIANTS Associative NilIdentity MessagesInOrder FlagsConjunction FirstSpecificName HistoryExactlyOnceUnchanged CausesReachable StatusTotal
+INVARIANTS Associative NilIdentity MessagesInOrder FlagsConjunction FirstSpecificName HistoryExactlyOnceUnchanged CausesReachable TopDecides StatusTotal
 CHECK_DEADLOCK FALSE
